@@ -420,6 +420,8 @@ def ref_run(cls, inputs, state, acc, outputs=None):
             return steps, ['exn', ['user', 'f%d' % k]]
         if inputs['kill'] == k:
             return steps, ['exn', ['killed', 'k%d' % k]]
+    if inputs['fail'] == 3:
+        return steps, ['exn', ['user', 'f3']]
     return steps, ['val', {'acc': acc, 'n': n}]
 
 
@@ -640,7 +642,7 @@ def distribution(cases, obs):
 # ------------------------------------------------------------------ generation
 INPUTS = {
     'Add': [{'a': 2}, {'a': 1, 'b': 5}, {}, {'a': 'x'}, None, {'a': 1, 'zz': 2}],
-    'Steps': [{}, {'n': 5}, {'fail': 1}, {'kill': 2}, {'fail': 0, 'n': 2}, {'kill': 0}, {'n': 'x'}, None],
+    'Steps': [{}, {'n': 5}, {'fail': 1}, {'kill': 2}, {'fail': 0, 'n': 2}, {'kill': 0}, {'n': 'x'}, None, {'fail': 3}, {'fail': 3, 'n': 1}],
 }
 INPUTS['Other'] = INPUTS['Steps']
 PIDS = ['P1', 'P2', None]
@@ -710,7 +712,7 @@ def generate(tier, rng, around=None):
     else:
         # systematic part 1: every (persist, nowait) x class x inputs, as launch, and as create followed by continue, on every configuration
         for cfg in cfgs:
-            for cls, inputs in (('Add', {'a': 2}), ('Steps', {'n': 5}), ('Steps', {'fail': 1}), ('Other', {'kill': 2})):
+            for cls, inputs in (('Add', {'a': 2}), ('Steps', {'n': 5}), ('Steps', {'fail': 1}), ('Other', {'kill': 2}), ('Steps', {'fail': 3})):
                 for persist, nowait in itertools.product((False, True), repeat=2):
                     cases.append(dict(cfg, hist=[['launch', cls, cfg['loader'], 'kw', inputs, 'P1', persist, nowait],
                                                  ['create', cls, cfg['loader'], 'kw', inputs, None, persist],
@@ -723,7 +725,7 @@ def generate(tier, rng, around=None):
                                          ['continue', 'P2', OMIT, None], ['continue', 'P2', 't1', None]]))
         # systematic part 2: continue from every mid-run checkpoint of every behaviour
         for cfg in [c for c in cfgs if c['persister'] != 'none' and (tier == 'thorough' or not c['lcloader'])]:
-            for inputs in ({'n': 1}, {'fail': 1}, {'kill': 2}):
+            for inputs in ({'n': 1}, {'fail': 1}, {'kill': 2}, {'fail': 3}):
                 for k in range(0, 6):
                     cases.append(dict(cfg, hist=[['presave', 'Steps', inputs, 'P1', k, 't1'], ['continue', 'P1', 't1', k % 2 == 1],
                                                  ['continue', 'P1', None, False], ['continue', 'P1', 't1', False]]))
